@@ -1,5 +1,8 @@
 //! vcore: log/codec/crypto level monitors (C06 C07 C08 C10 C14 C15).
 mod c08;
+mod c14;
+mod c15;
+mod gen;
 mod logs;
 
 #[global_allocator]
@@ -12,6 +15,8 @@ fn main() {
         "c08" => c08::run(&args, &mut rep),
         "c06" => logs::run(&args, &mut rep, "C06"),
         "c07" => logs::run(&args, &mut rep, "C07"),
+        "c14" => c14::run(&args, &mut rep),
+        "c15" => c15::run(&args, &mut rep),
         other => {
             eprintln!("vcore: unknown check {}", other);
             std::process::exit(2);
